@@ -910,11 +910,16 @@ func (ss *SpecSet) parseSpecText(file, pkgPath, text string) {
 				continue
 			}
 			n, err := strconv.Atoi(fs[0])
-			if err != nil || (fs[1] != "invariant" && fs[1] != "decreases") {
+			if err != nil || (fs[1] != "invariant" && fs[1] != "decreases" && fs[1] != "use") {
 				errf(ln, "bad loop clause %q", rest)
 				continue
 			}
-			cl := &Clause{Kind: fs[1], Loop: n, Text: fs[2], Props: props, Line: ln + 1, File: file}
+			kind := fs[1]
+			if kind == "use" {
+				// an instance of an axiom or lemma, stated for the values at the loop head
+				kind = "loopuse"
+			}
+			cl := &Clause{Kind: kind, Loop: n, Text: fs[2], Props: props, Line: ln + 1, File: file}
 			cur.Clauses = append(cur.Clauses, cl)
 			last = cl
 		case "modifies":
